@@ -476,7 +476,8 @@ var anchorTable = map[string]anchorSpec{
 	"patch":      {"jsonString", "patch", func(f *ssa.Function) bool { return f.Signature.Recv() == nil }},
 	"diff":       {"jsonString", "diff", func(f *ssa.Function) bool { return f.Signature.Recv() == nil }},
 	"readPatchDiffElement": {"", "ReadPatchString", func(f *ssa.Function) bool {
-		return f.Signature.Recv() == nil && f.Signature.Results().Len() == 3
+		// (hunk, rest, error) before /repo commit 66309a5, (hunk, after-test index, rest, error) since
+		return f.Signature.Recv() == nil && f.Signature.Results().Len() >= 3 && f.Signature.Results().Len() <= 4 && typeName(f.Signature.Results().At(0).Type()) == "DiffElement"
 	}},
 	"readMergeInto": {"", "ReadMergeString", func(f *ssa.Function) bool {
 		return f.Signature.Recv() == nil && f.Signature.Results().Len() == 1 && f.Signature.Params().Len() == 3
